@@ -2323,19 +2323,20 @@ avx_rule_avgsb_slow (OrcCompiler *p, void *user, OrcInstruction *insn)
   const int src1 = p->vars[insn->src_args[1]].alloc;
   const int dest = p->vars[insn->dest_args[0]].alloc;
   const int tmp = orc_compiler_get_constant (p, 1, 0x80);
+  const int tmp2 = orc_compiler_get_temp_reg (p);
   const int size = p->vars[insn->src_args[0]].size << p->loop_shift;
 
+  /* src1 must not be written: a 128-bit VEX operation clears the upper half
+   * of the register, which is live when src1 is a constant or parameter */
   if (size >= 32) {
-    orc_avx_emit_pxor (p, src1, tmp, src1);
+    orc_avx_emit_pxor (p, src1, tmp, tmp2);
     orc_avx_emit_pxor (p, src0, tmp, dest);
-    orc_avx_emit_pavgb (p, dest, src1, dest);
-    orc_avx_emit_pxor (p, src1, tmp, src1);
+    orc_avx_emit_pavgb (p, dest, tmp2, dest);
     orc_avx_emit_pxor (p, dest, tmp, dest);
   } else {
-    orc_avx_sse_emit_pxor (p, src1, tmp, src1);
+    orc_avx_sse_emit_pxor (p, src1, tmp, tmp2);
     orc_avx_sse_emit_pxor (p, src0, tmp, dest);
-    orc_avx_sse_emit_pavgb (p, dest, src1, dest);
-    orc_avx_sse_emit_pxor (p, src1, tmp, src1);
+    orc_avx_sse_emit_pavgb (p, dest, tmp2, dest);
     orc_avx_sse_emit_pxor (p, dest, tmp, dest);
   }
 }
@@ -2348,19 +2349,20 @@ avx_rule_avgsw_slow (OrcCompiler *p, void *user, OrcInstruction *insn)
   const int src1 = p->vars[insn->src_args[1]].alloc;
   const int dest = p->vars[insn->dest_args[0]].alloc;
   const int tmp = orc_compiler_get_constant (p, 2, 0x8000);
+  const int tmp2 = orc_compiler_get_temp_reg (p);
   const int size = p->vars[insn->src_args[0]].size << p->loop_shift;
 
+  /* src1 must not be written: a 128-bit VEX operation clears the upper half
+   * of the register, which is live when src1 is a constant or parameter */
   if (size >= 32) {
-    orc_avx_emit_pxor (p, src1, tmp, src1);
+    orc_avx_emit_pxor (p, src1, tmp, tmp2);
     orc_avx_emit_pxor (p, src0, tmp, dest);
-    orc_avx_emit_pavgw (p, dest, src1, dest);
-    orc_avx_emit_pxor (p, src1, tmp, src1);
+    orc_avx_emit_pavgw (p, dest, tmp2, dest);
     orc_avx_emit_pxor (p, dest, tmp, dest);
   } else {
-    orc_avx_sse_emit_pxor (p, src1, tmp, src1);
+    orc_avx_sse_emit_pxor (p, src1, tmp, tmp2);
     orc_avx_sse_emit_pxor (p, src0, tmp, dest);
-    orc_avx_sse_emit_pavgw (p, dest, src1, dest);
-    orc_avx_sse_emit_pxor (p, src1, tmp, src1);
+    orc_avx_sse_emit_pavgw (p, dest, tmp2, dest);
     orc_avx_sse_emit_pxor (p, dest, tmp, dest);
   }
 }
